@@ -1,13 +1,13 @@
 package main
 
 import (
-	"strconv"
 	"fmt"
 	"go/constant"
 	"go/token"
 	"go/types"
 	"regexp/syntax"
 	"sort"
+	"strconv"
 	"strings"
 
 	"golang.org/x/tools/go/ssa"
